@@ -257,3 +257,62 @@ func positiveFact(info *types.Info, facts []cfgx.Fact, v *types.Var) bool {
 	}
 	return false
 }
+
+// chainRules makes rules that belong to another property's check part of this one: the behaviour this property
+// states depends on them (a generated file that keeps an old tail does not compile, whatever the generator rendered).
+// A violated or undecided obligation of one of the named rules is a violation here; otherwise one summary
+// obligation records how many were discharged. The other property's check is run once per program and reused.
+var subReports = map[*core.Program]map[string]*core.Report{}
+
+func subReportOf(p *core.Program, other string) *core.Report {
+	if subReports[p] == nil {
+		subReports[p] = map[string]*core.Report{}
+	}
+	if sub, ok := subReports[p][other]; ok {
+		return sub
+	}
+	sub := core.NewReport(p, other)
+	subReports[p][other] = sub // set first: a chain back into the running property sees what is filed so far
+	Registry[other].Run(p, sub)
+	return sub
+}
+
+func chainRules(p *core.Program, r *core.Report, rule, other string, only []string, what string) {
+	r.Floor(rule, 1)
+	sub := subReportOf(p, other)
+	n, nbad := 0, 0
+	for _, o := range sub.Obls {
+		match := false
+		for _, w := range only {
+			if o.Rule == w {
+				match = true
+			}
+		}
+		if !match {
+			continue
+		}
+		n++
+		if o.Status == core.Violated || o.Status == core.Undecided {
+			nbad++
+			r.Bad(rule, nil, what+" ("+o.Rule+") "+o.Func+": "+o.Construct, token.NoPos, o.How)
+		}
+	}
+	if n == 0 {
+		r.Unknown(rule, nil, what, token.NoPos, "none of the rules "+joinStrings(only, ", ")+" filed an obligation: their constructs are no longer seen")
+		return
+	}
+	if nbad == 0 {
+		r.OK(rule, nil, what, token.NoPos, itoa(int64(n))+" obligations of "+joinStrings(only, ", ")+" discharged")
+	}
+}
+
+func joinStrings(xs []string, sep string) string {
+	out := ""
+	for i, x := range xs {
+		if i > 0 {
+			out += sep
+		}
+		out += x
+	}
+	return out
+}
